@@ -30,6 +30,13 @@ FORBIDDEN_RE = re.compile(
 )
 
 os.environ.setdefault(GUARD, "1")
+# byte-code cache for the package under test goes to /verif/.pycache (never into /repo): the sandbox sets
+# PYTHONDONTWRITEBYTECODE, which makes every child interpreter (constexpr evaluation, daemon) recompile the
+# 34k-line structure tables and miss the transpiler's own 1 s child timeout
+os.environ.pop("PYTHONDONTWRITEBYTECODE", None)
+os.environ["PYTHONPYCACHEPREFIX"] = str(VERIF / ".pycache")
+sys.dont_write_bytecode = False
+sys.pycache_prefix = str(VERIF / ".pycache")
 # make sure the package under test is the working tree of /repo
 sys.path.insert(0, str(REPO / "src"))
 
